@@ -174,6 +174,10 @@ func (e *Enc) collectDebug() {
 				if in.Comment != "" {
 					e.debugVars[in.Comment] = append(e.debugVars[in.Comment], in)
 				}
+				if in.Comment == "rangeint.iter" {
+					// hidden counter of `for range n` (current index 0,1,2,…): nameable as rangeiter
+					e.debugVars["rangeiter"] = append(e.debugVars["rangeiter"], in)
+				}
 			case *ssa.Alloc:
 				if in.Comment != "" {
 					e.debugVars[in.Comment] = append(e.debugVars[in.Comment], in)
@@ -185,7 +189,7 @@ func (e *Enc) collectDebug() {
 
 func debugName(d *ssa.DebugRef) string {
 	if obj := d.Object(); obj != nil {
-		if _, ok := obj.(*types.Var); ok {
+		if v, ok := obj.(*types.Var); ok && !v.IsField() {
 			return obj.Name()
 		}
 	}
@@ -416,6 +420,8 @@ func (e *Enc) backEdgeChecks(b *ssa.BasicBlock) {
 		ls := e.loopSpec(li.ord)
 		cond := e.edge(b, h)
 		saved := e.curReach
+		e.loopCovers = append(e.loopCovers, retPoint{reach: cond, nAsm: len(e.asm)})
+		e.loopCoverNames = append(e.loopCoverNames, fmt.Sprintf("cover:loop%d@b%d", li.ord, b.Index))
 		e.curReach = cond
 		sub := map[*ssa.Phi]Val{}
 		pi := -1
